@@ -215,37 +215,7 @@ func runC05(c *kit.Ctx) {
 			}
 			c.Check(good, multiTP, "accumulate-pair", multiTP.Pos(), "blocks and size are accumulated from the same nested SerializeCellBlocks call", "multi.toProto no longer accumulates the cellblocks and their size from the same nested call")
 		}
-		// the cellblocks of a region's actions go out in the iteration that emits that region's action:
-		// the server consumes the trailing cellblock in region-action order
-		{
-			good := false
-			kit.Instrs(multiTP, func(in ssa.Instruction) {
-				call, ok := in.(*ssa.Call)
-				if !ok || kit.CalleeName(call) != "builtin.append" {
-					return
-				}
-				_, f := kit.FieldRead(call.Call.Args[1])
-				if f == nil || f.Name() != "cellblocks" {
-					return
-				}
-				base, _ := kit.FieldRead(call.Call.Args[1])
-				as, ok := kit.Root(base).(*ssa.Extract)
-				if !ok || as.Index != 2 {
-					return
-				}
-				// the same Next feeds the RegionAction stored in this iteration
-				kit.Instrs(multiTP, func(x ssa.Instruction) {
-					st, ok := x.(*ssa.Store)
-					if !ok || st.Block() != call.Block() {
-						return
-					}
-					if ia, ok := st.Addr.(*ssa.IndexAddr); ok && strings.Contains(ia.X.Type().String(), "pb.RegionAction") {
-						good = true
-					}
-				})
-			})
-			c.Check(good, multiTP, "cellblocks-in-action-order", multiTP.Pos(), "each region's cellblocks are appended in the same iteration (of the one loop over the grouping map) that emits its region action", "the cellblocks are appended in a different iteration order than the region actions (two separate range loops over a map pick independent orders): the cells of one region's mutations are attached to another region's mutations while all lengths stay consistent")
-		}
+		cellblocksInActionOrder(c, multiTP)
 		// header meta
 		{
 			good := false
@@ -465,6 +435,7 @@ func runC05(c *kit.Ctx) {
 			c.Unk(send, "write-sites", send.Pos(), "no connection write found in send")
 		}
 	}
+	writeErrorIsFatal(c, send)
 
 	// ---- R7 ---------------------------------------------------------------
 	c.StartRule("R7", "hello first", 3)
@@ -644,4 +615,39 @@ func elemOfVariadic(v ssa.Value) ssa.Value {
 		}
 	})
 	return out
+}
+
+// cellblocksInActionOrder: shared by C05.R2 and C12.R3.
+func cellblocksInActionOrder(c *kit.Ctx, multiTP *ssa.Function) {
+	// the cellblocks of a region's actions go out in the iteration that emits that region's action:
+	// the server consumes the trailing cellblock in region-action order
+	{
+		good := false
+		kit.Instrs(multiTP, func(in ssa.Instruction) {
+			call, ok := in.(*ssa.Call)
+			if !ok || kit.CalleeName(call) != "builtin.append" {
+				return
+			}
+			_, f := kit.FieldRead(call.Call.Args[1])
+			if f == nil || f.Name() != "cellblocks" {
+				return
+			}
+			base, _ := kit.FieldRead(call.Call.Args[1])
+			as, ok := kit.Root(base).(*ssa.Extract)
+			if !ok || as.Index != 2 {
+				return
+			}
+			// the same Next feeds the RegionAction stored in this iteration
+			kit.Instrs(multiTP, func(x ssa.Instruction) {
+				st, ok := x.(*ssa.Store)
+				if !ok || st.Block() != call.Block() {
+					return
+				}
+				if ia, ok := st.Addr.(*ssa.IndexAddr); ok && strings.Contains(ia.X.Type().String(), "pb.RegionAction") {
+					good = true
+				}
+			})
+		})
+		c.Check(good, multiTP, "cellblocks-in-action-order", multiTP.Pos(), "each region's cellblocks are appended in the same iteration (of the one loop over the grouping map) that emits its region action", "the cellblocks are appended in a different iteration order than the region actions (two separate range loops over a map pick independent orders): the cells of one region's mutations are attached to another region's mutations while all lengths stay consistent")
+	}
 }
